@@ -14,7 +14,7 @@ from ..baseclass import ndpoly
 
 HEADER_REGEX = re.compile(
     HEADER_TEMPLATE.format(
-        version=r"\S+", names=r"(\S+)", keys=r"(\S+)", shape=r"(\S+)"
+        version=r"\S+", names=r"(\S+)", keys=r"(\S+)", shape=r"(\S*)"
     )
 )
 
@@ -105,7 +105,11 @@ def loadtxt(
         with open(fname) as src:
             header = src.readline()
     else:
+        position = fname.tell()
         header = fname.readline()
+        # numpy reads the file object from here on: give it the header
+        # line back, it is data unless it is a comment.
+        fname.seek(position)
     if isinstance(header, bytes):
         header = header.decode("utf-8")
 
@@ -129,8 +133,11 @@ def loadtxt(
         groups = match.groups()
         names = tuple(groups[0].split(","))
         keys = groups[1].split(",")
-        shape = [int(idx) for idx in groups[2].split(",")]
+        # a 0-d polynomial is stored with an empty shape entry.
+        shape = [int(idx) for idx in groups[2].split(",") if idx]
         dtype = numpy.dtype([(key, array.dtype) for key in keys])
+        # numpy squeezes single rows and single columns (one term) away.
+        array = array.reshape(-1, len(keys))
         struct = unstructured_to_structured(array, dtype)
         array = numpoly.polynomial(struct, names=names)
         array = numpoly.reshape(array, shape)
